@@ -58,6 +58,11 @@ def cases(tier, seed):
         for card in ((1, 1), (0, 1), (1, 2)):
             yield ('E', M(F('Fa', [R(card[0], card[1], [F(n) for n in g1]), R(card[0], card[1], [F(n) for n in g2])])))
     yield ('E', M(F('Fa', [R(1, 3, [F('Slot1'), F('Slot01'), F('Slot001')]), R(0, 1, [F('Slot2')]), R(0, 1, [F('Slot02')])])))
+    # aggregates with and without their optional second argument, at the root of a comparison and below it
+    for agg in ('SUM', 'AVG'):
+        for second in (None, 'x', 'y'):
+            yield ('E', cm.on_carrier([('LOWER', (agg, 'att', second), 100)]))
+            yield ('E', cm.on_carrier([('AND', 'x', ('GREATER', ('ADD', (agg, 'att', second), 3), 7))]))
     # all of K_1 as the single constraint of one carrier (operator/operand edits on every shape)
     for t in cm.k1():
         yield ('E', cm.on_carrier([t]))
@@ -244,12 +249,31 @@ def edits(model):
         out.append(('drop-ctc', (model[0], rest_before + rest_after)))
         for t2 in _tree_edits(t, ops):
             out.append(('ctc-edit', (model[0], rest_before + ((cn, t2),) + rest_after)))
+        for t2 in _aggregate_edits(t):
+            out.append(('ctc-aggregate-argument', (model[0], rest_before + ((cn, t2),) + rest_after)))
         # one operand replaced by another feature of the model
         for t2 in _operand_swaps(t, names[:6]):
             out.append(('ctc-operand', (model[0], rest_before + ((cn, t2),) + rest_after)))
     out.append(('add-ctc', (model[0], model[1] + (('cz', ('REQUIRES', names[0], 'Qx')),))))
     assert used is not None
     return out
+
+
+def _aggregate_edits(t):
+    """An aggregate gains / loses / changes its optional second argument."""
+    if not isinstance(t, tuple):
+        return
+    op, left, right = t
+    if op in ('SUM', 'AVG'):
+        for alt in (None, 'Bb', 'Dc'):
+            if alt != right:
+                yield (op, left, alt)
+        return
+    for l2 in _aggregate_edits(left):
+        yield (op, l2, right)
+    if right is not None:
+        for r2 in _aggregate_edits(right):
+            yield (op, left, r2)
 
 
 def _operand_swaps(t, names):
@@ -273,6 +297,8 @@ def _tree_edits(t, ops):
     op, left, right = t
     if op == 'NOT':
         yield left
+    elif op not in ops:
+        pass        # comparison / arithmetic / aggregate node: only its operands are edited
     else:
         yield (ops[(ops.index(op) + 1) % len(ops)], left, right)
         if left != right:
